@@ -27,7 +27,7 @@ BOUNDS = ("tree catalogue (spec/catalogue.py): every built-in mobilizer forward 
           "extra.free_sets_reduced_to_linear_inputs_by_size_limit); hinge-inertia inverses D^-1 and quaternion norms assumed non-zero "
           "(division side conditions); for 6-dof mobilizers (Free, FreeLine, Bushing) D is inverted by the modelled LAPACK LU whose pivot "
           "comparisons enter the path condition: the claim holds on the executed pivoting path only")
-NOT_COVERED = ("trees beyond the catalogue (more than 3/5 bodies, 12-body chains); more than k simultaneously free coordinates; "
+NOT_COVERED = ("thorough tier: the 5-body trees get 2 base points and 2 choices of free coordinates only; trees beyond the catalogue (more than 3/5 bodies, 12-body chains); more than k simultaneously free coordinates; "
                "Custom/FunctionBased mobilizers; constraints and prescribed motion (C08, C10); calcAcceleration/calcResidualForce with "
                "constraints; float precision; rounding error; mass/frame parameters are varied only over the listed base points; "
                "other LU pivoting paths of 6-dof hinge matrices")
@@ -39,14 +39,14 @@ def instances(tier, seed):
         out.append(dict(name=i["name"], args=i["args"] + ["0"]))
         # same tree, all coordinates pinned: the library itself composes the operators (harness level), body accelerations compared
         out.append(dict(name=i["name"] + "|composed", args=i["args"] + ["1"], composed=True))
-    return tier_caps(out, tier)
+    return tier_caps(out, tier, big_base_points=2)
 
 
 def free_sets(inst, tr, tier, rng):
     fs = list(cat.coordinate_free_sets(inst, tr, tier, rng, always=("u", "f_", "F", "a_")))
     if inst.get("composed"):
         return [[n for n in fs[0] if not is_coord(n)]]
-    return cap_sets(fs, tier)
+    return cap_sets(fs, tier, inst=inst, big_n=2)
 
 
 def obligations(enc, inst, tr):
